@@ -21,12 +21,15 @@ RULE = ('files from the C19 generator (modules, routines, internal procedures, t
         'file lines first/last; a node that names something (call target, imported module, declared variable, type, unit) has that '
         'name in its text. Completeness from the line map: each generated CALL/assignment/USE/declaration/binding statement has '
         'exactly one node of the expected class with exactly its line span (FP; REGEX: calls, USE, types, interfaces), each program '
-        'unit has exactly its rendered span and text. non-trivial = the layout used continuation lines, ;-joins or comment lines '
+        'unit has exactly its rendered span and text. Two more populations get the per-node checks only: FProg kernels (WHERE, '
+        'SELECT, labelled DO, intrinsics ...) and every Fortran file shipped in the repository. non-trivial = the layout used continuation lines, ;-joins or comment lines '
         'between statements AND some checked leaf node spans >= 2 lines; distinct by hash of the case')
 ASSUMPTIONS = ['line numbers are 1-based indices into text.split("\\n") (a final newline gives one more, empty, line - the frontends '
                'count it too)',
-               'a file the frontend rejects is counted as rejected (C19 judges discovery); triggers of C19 findings that make '
-               'the REGEX frontend raise or time out are not generated']
+               'a file the frontend rejects is counted as rejected (C19 judges discovery); the triggers of the C19 findings are '
+               'not generated, and REGEX completeness is judged only when REGEX and FP agree on what the file contains',
+               'two listed findings are excluded: files that start with a blank line are not generated (REGEX line numbers), '
+               'and a CommentBlock whose member comments are not on adjacent lines is skipped and counted (FP)']
 SHARDS = {'quick': 8, 'thorough': 16}
 BUDGET = {'quick': 75, 'thorough': 1500}
 
@@ -310,11 +313,9 @@ def run_shard(ctx):
     ctx.extra['repository_files'] = len(files)
     from ..fprog import gen as fgen
     fprof = fgen.profile(assoc=True, pragmas=True, stmtfunc=False)
-    if ctx.thorough:
-        # interleave so that a short budget still sees both populations
-        explore(ctx, fgen.cases(fprof).map(lambda c: {'fprog': c}), check_fprog, min(200, ctx.scale(160, 3000)), 'fprog')
+    # the small FProg population first, so that a short budget still sees every population
+    explore(ctx, fgen.cases(fprof).map(lambda c: {'fprog': c}), check_fprog, ctx.scale(160, 3000), 'fprog')
     explore(ctx, cases(PROFILE), check_case, ctx.scale(1600, 30000), 'main')
-    explore(ctx, fgen.cases(fprof).map(lambda c: {'fprog': c}), check_fprog, ctx.scale(160, 3000), 'fprog' if not ctx.thorough else 'fprog-b')
 
 
 def replay(case, ctx):
